@@ -71,8 +71,32 @@ def duty_cycle_call(n):
     check(And(size >= 350, size <= 1290), "S4 a frame costs between 350 and 1290 bits")
 
 
-class FakeSuperTransport:
-    pass
+async def radio_write_while_another_caller_debits(self, frame, *args, **kwargs):
+    """The awaited write, during which another caller of the same wrapper runs its own debit
+    (rely: other callers only ever *subtract their own frame size* from the shared level)."""
+    w = ghost("wrapper")[0]
+    set_closure(w, "bits_in_bucket", get_closure(w, "bits_in_bucket") - ghost("other_debit")[0])
+    ghost("written").append(frame)
+
+
+@harness("C11", stubs={asyncio.sleep: sleep_stub, T.perf_counter: perf_counter_stub})
+def duty_cycle_debit_is_not_lost():
+    """Rely/guarantee across the await: if another caller debits d bits while this call's write is
+    in progress, both debits count -- the new level is (level - d) - size, not a stale value."""
+    b = sym_float("level", 0.0, CAP)
+    d = sym_float("other_debit", 350.0, 1290.0)
+    ghost("clock").append(0.0)
+    wrapper = T.limit_duty_cycle(MAX_DUTY_CYCLE_RATE)(radio_write_while_another_caller_debits)
+    set_closure(wrapper, "bits_in_bucket", b)
+    ghost("wrapper").append(wrapper)
+    ghost("other_debit").append(d)
+    ghost("clock").append(0.0)
+    ghost("clock").append(0.0)
+    frame = "RQ --- 18:000730 01:145038 --:------ 0004 002 0000"
+    outcome(wrapper, opaque("transport"), frame)
+    after = get_closure(wrapper, "bits_in_bucket")
+    diff = after - (b - d - 370)
+    check(And(diff <= 0.001, diff >= -0.001), "a debit made by another caller during the write is not lost")
 
 
 async def mqtt_publish(self, frame, *args, **kwargs):
@@ -110,6 +134,7 @@ def mqtt_token_bucket(disable_limits):
     else:
         check(written == 1, "with limits disabled the frame is always published")
     check(tp._max_tokens >= M._MAX_TOKENS, "the allowance never drops below MAX_TOKENS")
+    check(tp._timestamp == now, "the refill clock advances on every call, accepted or dropped (elapsed time is credited once)")
 
 
 from pyvc.harness import structural  # noqa: E402
@@ -132,4 +157,6 @@ def serial_writes_go_through_the_regulator():
         ("0 < MAX_DUTY_CYCLE_RATE <= 1, so the limiting wrapper (not the null wrapper) is installed",
          0 < MAX_DUTY_CYCLE_RATE <= 1, str(MAX_DUTY_CYCLE_RATE)),
         ("the bucket holds DUTY_CYCLE_DURATION (60 s) worth of bits", DUTY_CYCLE_DURATION == 60, str(DUTY_CYCLE_DURATION)),
+        ("the inter-write gap permit is a BoundedSemaphore (idle time cannot bank more than one permit)",
+         "self._leaker_sem = asyncio.BoundedSemaphore()" in src, "PortTransport.__init__"),
     ]
